@@ -160,6 +160,9 @@ def include_graph_inv(rng, nclasses=None, cyclic=False, refs=0.25, missing=0.0, 
                     cl.append(tgt)
             else:
                 cl.append(tgt)
+        if cl and rng.random() < 0.1:
+            # an entry spelled twice (the include list keeps distinct entries only)
+            cl.insert(rng.randint(0, len(cl)), rng.choice(cl))
         if missing and rng.random() < missing:
             cl.insert(rng.randint(0, len(cl)), rng.choice(missing_names))
         params = [(S('trace'), L(S(name)))]
